@@ -26,6 +26,8 @@ func main() {
 		runPath()
 	case "search":
 		runSearch(os.Args[2])
+	case "alias":
+		runAlias(os.Args[2])
 	default:
 		fmt.Fprintln(os.Stderr, "unknown engine")
 		os.Exit(2)
